@@ -1,12 +1,16 @@
 ------------------------------- MODULE TextCodecTrace -------------------------------
 (* Trace validation for C04: every recorded write/read cycle of the real code is    *)
 (* judged by the property-level spec of TextCodec.tla.  One ndjson line per record: *)
-(*   {"id": k, "dc": "plain"|"tab"|"space", "t": <table as written>,                *)
+(*   {"id": k, "dcode": <character code of the delimiter>, "t": <table as written>, *)
 (*    "obs": [<observation of one cycle: entry point, byte order, result>, ...]}    *)
+(* The delimiter is classified here (TCDelimClass / TCDelimGroup of TextCodec.tla): *)
+(* a record whose delimiter is outside the quantifier of the statement (inherently  *)
+(* ambiguous, TCAmbiguousCodes, or not a delimiter of the universe) demands nothing.*)
 (* The table and the observed rows are abstracted by the same byte -> token map, so *)
 (* the judgement is token equality.  A rejected record is printed with the failing  *)
 (* clauses ("<k>:<clause>" for observation k) and with the structural class of the  *)
-(* table ("hz:<first named hazard of the pinned scanner>", or "hz:none").           *)
+(* table ("hz:<first named hazard of the pinned scanner>", or "hz:none") and of the *)
+(* delimiter ("dl:<class>/<group>").                                                *)
 EXTENDS TextCodec, Json, IOUtils
 
 VARIABLES blk, tid
@@ -25,6 +29,10 @@ FailingRec(r) ==
     UNION {{ToString(k) \o ":" \o c : c \in TCFailing(r.t, r.obs[k])} : k \in DOMAIN r.obs}
 
 Check == tid > 0 =>
-    LET r == Traces[tid]  f == FailingRec(r)
-    IN f = {} \/ PrintT(<<"REJECT", ToJson([id |-> r.id, failing |-> f \cup {"hz:" \o TCHazard(r.t, r.dc)}])>>)
+    LET r == Traces[tid]
+    IN r.dcode \notin TCQuantDelims \/
+       LET f  == FailingRec(r)
+           dc == TCDelimClass(r.dcode)
+       IN f = {} \/ PrintT(<<"REJECT", ToJson([id |-> r.id, failing |-> f \cup {"hz:" \o TCHazard(r.t, dc),
+                                                                                "dl:" \o dc \o "/" \o TCDelimGroup(r.dcode)}])>>)
 =============================================================================
